@@ -28,10 +28,11 @@ VARIABLES form, k, rs, n, pc
 vars == <<form, k, rs, n, pc>>
 
 CondForms  == {"and_chain", "or_chain", "map_group", "seq_group", "not1",
-               "all_seq", "of_seq", "all_map", "of_map", "mx_not", "nest_and"}
+               "all_seq", "of_seq", "all_map", "of_map", "mx_not", "nest_and",
+               "nall_seq", "nof_seq", "nall_map", "nof_map"}       \* a quantifier under `not`
 KeyForms   == {"klist", "kall", "kof", "klist_mix", "kall_mix", "kof_mix", "knot"}
 Forms == CondForms \cup KeyForms
-Thresholded == {"of_seq", "of_map", "kof", "kof_mix"}
+Thresholded == {"of_seq", "of_map", "kof", "kof_mix", "nof_seq", "nof_map"}
 
 X == <<120>>    \* "x"
 Y == <<121>>    \* "y"
@@ -81,6 +82,10 @@ SrcFor(o) ==
     [] form = "of_seq"    -> Src(OfC(A, n), << <<A, SeqB([i \in 1..k |-> Atom(o[i])])>> >>)
     [] form = "all_map"   -> Src(AllC(A), << <<A, MapB([i \in 1..k |-> Ent(Fld(o[i]), ExactP(X))])>> >>)
     [] form = "of_map"    -> Src(OfC(A, n), << <<A, MapB([i \in 1..k |-> Ent(Fld(o[i]), ExactP(X))])>> >>)
+    [] form = "nall_seq"  -> Src(NotC(AllC(A)), << <<A, SeqB([i \in 1..k |-> Atom(o[i])])>> >>)
+    [] form = "nof_seq"   -> Src(NotC(OfC(A, n)), << <<A, SeqB([i \in 1..k |-> Atom(o[i])])>> >>)
+    [] form = "nall_map"  -> Src(NotC(AllC(A)), << <<A, MapB([i \in 1..k |-> Ent(Fld(o[i]), ExactP(X))])>> >>)
+    [] form = "nof_map"   -> Src(NotC(OfC(A, n)), << <<A, MapB([i \in 1..k |-> Ent(Fld(o[i]), ExactP(X))])>> >>)
     (* mx_not: a sequence of two-key mappings sharing field f0 (the matrix optimisation makes it a   *)
     (* table whose rows have two cells) under a negation                                            *)
     [] form = "mx_not"    -> Src(NotC(Id(A)), << <<A, SeqB([i \in 1..k |-> MapB(<<Ent(Fld(o[i]), ExactP(X)), Ent(Fld(9), ExactP(X))>>)])>> >>)
@@ -114,6 +119,8 @@ Adm ==
     [] form = "not1" -> {Not(rs[1])}
     [] form = "knot" -> {Not(OrN(rs))}
     [] form \in {"all_seq", "all_map", "kall", "kall_mix"} -> AllAdm(rs)
+    [] form \in {"nall_seq", "nall_map"} -> NotS(AllAdm(rs))
+    [] form \in {"nof_seq", "nof_map"} -> NotS(OfAdm(n, rs))
     [] form \in Thresholded -> OfAdm(n, rs)
     [] form \in {"mx_not", "nest_and"} -> LangEval(CaseSrc, CaseDoc)      \* no abstract vector form
 
@@ -146,6 +153,10 @@ Eng ==
     [] form = "of_seq"    -> EngOfGroup(n, rs)
     [] form = "all_map"   -> IF k = 1 THEN rs[1] ELSE EngAllGroup(rs)
     [] form = "of_map"    -> IF k = 1 THEN EngOfSingle(n, rs[1]) ELSE EngOfGroup(n, rs)
+    [] form = "nall_seq"  -> EngNot(EngAllGroup(rs))
+    [] form = "nof_seq"   -> EngNot(EngOfGroup(n, rs))
+    [] form = "nall_map"  -> EngNot(IF k = 1 THEN rs[1] ELSE EngAllGroup(rs))
+    [] form = "nof_map"   -> EngNot(IF k = 1 THEN EngOfSingle(n, rs[1]) ELSE EngOfGroup(n, rs))
     [] form = "klist"     -> Batched(rs)
     [] form = "knot"      -> EngNot(Batched(rs))
     [] form = "kall"      -> IF rs[1] = "M" THEN "M" ELSE IF Trues(rs) = k THEN "T" ELSE "F"
@@ -161,7 +172,8 @@ Eng ==
 (* level, on the solver's loops and on the language layer), except under a negation or none-of  *)
 Perms == {p \in [1..k -> 1..k] : \A i, j \in 1..k : i # j => p[i] # p[j]}
 Permuted(p) == [i \in 1..k |-> rs[p[i]]]
-Commutative == form \notin {"not1", "knot", "mx_not"} /\ ~(form \in Thresholded /\ n = 0)
+Commutative == form \notin {"not1", "knot", "mx_not", "nall_seq", "nof_seq", "nall_map", "nof_map"}
+               /\ ~(form \in Thresholded /\ n = 0)
 OrderFree ==
   \A p \in Perms :
      /\ (EngAndGroup(Permuted(p)) = "T") = (EngAndGroup(rs) = "T")
